@@ -18,10 +18,13 @@ META = {
     "level": "exploration",
     "rule": ("(max,min) pairs: every pair from P x P', P={0} u {2^k-1,2^k,2^k+1: k=0..64} and negatives, "
              "restricted to pairs some NumPy integer dtype holds, plus the one-argument negative form; "
-             "random pairs (thorough); in-situ calls made by to_array/collapsed/IndxIO.save. "
+             "random pairs (thorough); in-situ calls made by to_array/collapsed/IndxIO.save, whose consequences (dense "
+             "output, collapsed output, INDX coordinate words) are checked for wrap-around as well. "
              "Non-trivial: max or min within 1 of +-2^7,2^8,+-2^15,2^16,+-2^31,2^32,+-2^63,2^64; distinct by (max,min,form)"),
-    "require": {"quick": ["pairs_partition", "insitu_calls"],
-                "thorough": ["pairs_partition", "pairs_random", "insitu_calls"]},
+    "require": {"quick": ["pairs_partition", "insitu_calls", "consequence:indx_words_checked",
+                          "consequence:collapsed_output_checked"],
+                "thorough": ["pairs_partition", "pairs_random", "insitu_calls", "consequence:indx_words_checked",
+                             "consequence:collapsed_output_checked"]},
     "exhaustive": {"quick": "threshold partition P x P' of the (max,min) plane (all powers of two +-1, k=0..64)",
                    "thorough": "threshold partition P x P' of the (max,min) plane (all powers of two +-1, k=0..64)"},
     "assumptions": ["numpy.iinfo is the ground truth for what an integer dtype can hold",
@@ -198,12 +201,31 @@ def insitu(ctx, n):
                 ctx.violation("insitu:to_array-wrapped", "to_array() default dtype %s lost values" % out.dtype,
                               {"a": a2})
             prec = sorted(set(vals), key=lambda v: (v % 7, v))
-            idx.collapsed(prec)                         # fit_dtype(max, min) and fit_dtype(numcols)
+            col = idx.collapsed(prec)                   # fit_dtype(max, min) and fit_dtype(numcols)
+            got = set(int(v) for v in col.to_array(dtype=numpy.int64).ravel().tolist()) if max(abs(v) for v in vals) < 2 ** 63 else set()
+            ctx.count("consequence:collapsed_output_checked")
+            if not got <= set(prec):
+                ctx.violation("insitu:collapsed-wrapped", "collapsed(%r) produced values %r that are not in the precedence "
+                              "list: the chosen output dtype wrapped them" % (prec, sorted(got - set(prec))[:4]), {"a": a2, "precedence": prec})
             if not signed:
-                ent = {(int(v), int(c)): numpy.array([0], dtype=numpy.uint32)
-                       for v, c in zip(vals, range(len(vals)))}
+                # the widest coordinate deliberately sits in the FIRST key and in either position
+                order = sorted(range(len(vals)), key=lambda j: -vals[j])
+                ent = {}
+                for pos, j in enumerate(order):
+                    key = (int(vals[j]), int(pos)) if i % 2 == 0 else (int(pos), int(vals[j]))
+                    ent[key] = numpy.array([pos], dtype=numpy.uint32)
+                common = int(vals[int(rng.integers(0, k))])
                 with tempfile.TemporaryFile() as f:
-                    io_.IndxIO.save(f, ent, int(vals[0]), numpy.dtype(numpy.uint32))
+                    io_.IndxIO.save(f, ent, common, numpy.dtype(numpy.uint32))
+                    f.seek(0)
+                    loaded, lcommon, _ = io_.IndxIO.load(f)
+                    lkeys = set(loaded)
+                    del loaded
+                ctx.count("consequence:indx_words_checked")
+                if lkeys != set(ent) or lcommon != common:
+                    ctx.violation("insitu:indx-coordinate-wrapped",
+                                  "INDX coordinate word too narrow: saved keys %r common %r, loaded keys %r common %r"
+                                  % (sorted(ent)[:4], common, sorted(lkeys)[:4], lcommon), {"entries": sorted(ent), "common": common})
             if ctx.full():
                 break
         ctx.sample({"insitu_values": vals, "signed": bool(signed)})
